@@ -27,6 +27,9 @@ class Match(FilterFunction):
 
         try:
             # re.fullmatch caches compiled patterns internally
-            return bool(re.fullmatch(map_re(pattern), string))
+            # VERSION0 explicitly: the `regex` package's default version is a
+            # process-wide setting, and VERSION1 reads `||`, `&&`, `~~` and `--`
+            # inside a character class as set operations.
+            return bool(re.fullmatch(map_re(pattern), string, flags=re.VERSION0))
         except (TypeError, re.error):
             return False
